@@ -928,6 +928,31 @@ def c16(w):
         ghost = listed - existing
         if ghost:
             f.append(("c16:ghost-attachment", "topic lists subscription(s) %r that do not exist" % sorted(ghost)))
+    # an abandoned Publish is all-or-nothing across the subscriptions that were attached all along:
+    # its message reaches every one of them or none
+    dropped_pubs = [x for x in w.evs if x.op == "pub" and getattr(x, "dropped", False) and x.i < go[-1]]
+    if dropped_pubs:
+        setup_subs = {}
+        for x in w.evs:
+            if x.op == "csub" and x.ans.startswith("ok") and x.i < dropped_pubs[0].i and not getattr(x, "dropped", False):
+                setup_subs[split_name(unhx(x.args[0]), b"subscriptions")] = unhx(x.args[1])
+        deleted = set(split_name(unhx(x.args[0]), b"subscriptions") for x in w.evs if x.op == "dsub" and x.i < go[-1])
+        for dp in dropped_pubs:
+            topic_raw = unhx(dp.args[0])
+            payloads = [m.split(";")[0] for m in sl(dp.args[1], ",")]
+            subs_t = [n for n, t in setup_subs.items() if t == topic_raw and n not in deleted]
+            if len(subs_t) < 2 or any(x.op == "dtopic" for x in w.evs):
+                continue
+            got = {n: set() for n in subs_t}
+            for x in w.evs:
+                if x.op == "pull" and x.i > dp.i and x.ans.startswith("ok"):
+                    n = split_name(unhx(x.args[0]), b"subscriptions")
+                    if n in got:
+                        got[n].update(d for (_, _, d, _) in parse_delivs(x.ans[3:].strip()))
+            for pl in payloads:
+                have = [n for n in subs_t if pl in got[n]]
+                if have and len(have) != len(subs_t):
+                    f.append(("c16:partial-publish", "the abandoned Publish of %s reached %r but not %r" % (pl[:40], sorted(have), sorted(set(subs_t) - set(have)))))
     # the probe publish after the scenario must reach every existing subscription
     probe_ids = None
     for x in after:
@@ -1110,6 +1135,19 @@ def run_seq_oracle(prop, ops, answers, sides, conc=False):
 
 def pure_names(line, ans):
     toks = line.split()
+    if toks[0] == "name.eq" and ans not in ("skip", "rejected"):
+        kind = b"topics" if toks[1] == "t" else b"subscriptions"
+        a, b = split_name(unhx(toks[2]), kind), split_name(unhx(toks[3]), kind)
+        if a is None or b is None:
+            return []
+        parts = ans.split(" ")
+        f = []
+        if (parts[0] == "eq") != (a == b):
+            f.append(("c18:distinct-names-equal" if a != b else "c18:same-name-unequal",
+                      "%r and %r compare as %s" % (unhx(toks[2])[:60], unhx(toks[3])[:60], parts[0])))
+        if len(parts) > 1 and parts[1] == "hash-differs":
+            f.append(("c18:equal-names-hash-differently", "%r and %r are equal but hash differently" % (unhx(toks[2])[:60], unhx(toks[3])[:60])))
+        return f
     if toks[0] not in ("topic.parse", "sub.parse") or ans in ("skip",):
         return []
     raw = unhx(toks[1])
@@ -1276,6 +1314,7 @@ def c14_push(lines, answers, meta, model_accepts):
             f.append(("c14:post-to-unknown-endpoint", "POST to /%s" % p["path"]))
         elif (p["path"], p["data"]) not in known and p["data"] not in meta["after_delete"]:
             f.append(("c14:unknown-message-posted", "POST of unknown data %s" % p["data"]))
+            f.append(("c09:push-data", "a POST carries data that decodes (standard base64) to %s, which was never published" % p["data"][:60]))
     for p in posts[n_first:]:
         if p["path"] in meta["deleted"] and p["data"] in meta["after_delete"]:
             f.append(("c14:post-after-delete", "message %s published after DeleteSubscription was POSTed to /%s" % (p["data"], p["path"])))
